@@ -86,6 +86,16 @@ func c20HCLPlan(d string) (doc string, run func() string) {
 		t.Schema = one
 		one.Tables = append(one.Tables, t)
 	}
+	if d == "postgres" {
+		// several enum types in one schema, used by one table
+		et := schema.NewTable("attrs_enums").SetSchema(one).AddColumns(schema.NewIntColumn("id", "integer"))
+		for _, n := range []string{"zeta", "alpha", "mood", "Beta", "kind", "state"} {
+			en := &schema.EnumType{T: n, Values: []string{"a", "b"}, Schema: one}
+			one.AddObjects(en)
+			et.AddColumns(schema.NewColumn("c_" + n).SetType(en))
+		}
+		one.Tables = append(one.Tables, et)
+	}
 	b, err := da.marshal(one)
 	if err != nil {
 		return "", func() string { return "marshal: " + err.Error() }
@@ -140,6 +150,33 @@ func c20ModifySet(d string) []schema.Change {
 		&schema.DropIndex{I: ix2}, &schema.DropColumn{C: nick}, &schema.DropForeignKey{F: fk}, &schema.DropIndex{I: ix}, &schema.DropColumn{C: spouse},
 		&schema.AddColumn{C: schema.NewNullIntColumn("name", ity)},
 	}}}
+}
+
+// c20CycleSets: tables that refer to each other in a cycle - dropped together, and created together (the
+// planner detaches the references; it must not do so in the caller's tables).
+func c20CycleSets(d string) map[string][]schema.Change {
+	ity := map[string]string{"mysql": "int", "postgres": "integer"}[d]
+	mk := func() (*schema.Table, *schema.Table, *schema.Table) {
+		s := schema.New("s")
+		var ts []*schema.Table
+		for _, n := range []string{"users", "workplaces", "teams"} {
+			t := schema.NewTable(n).SetSchema(s)
+			id, ref := schema.NewIntColumn("id", ity), schema.NewNullIntColumn("ref", ity)
+			t.AddColumns(id, ref).SetPrimaryKey(schema.NewPrimaryKey(id))
+			ts = append(ts, t)
+		}
+		for i, t := range ts {
+			p := ts[(i+1)%len(ts)]
+			t.AddForeignKeys(schema.NewForeignKey("fk_" + t.Name).SetTable(t).AddColumns(t.Columns[1]).SetRefTable(p).AddRefColumns(p.Columns[0]))
+		}
+		return ts[0], ts[1], ts[2]
+	}
+	a, b, c := mk()
+	x, y, z := mk()
+	return map[string][]schema.Change{
+		"drop a cycle":   {&schema.DropTable{T: a}, &schema.DropTable{T: b}, &schema.DropTable{T: c}},
+		"create a cycle": {&schema.AddTable{T: x}, &schema.AddTable{T: y}, &schema.AddTable{T: z}},
+	}
 }
 
 // c20Digest computes every observable of the case as one string.
@@ -354,24 +391,27 @@ func runC20(e *Env) error {
 	}
 	// planning the same change values again gives the same statements (the planner does not edit its input)
 	for _, d := range []string{"mysql", "postgres"} {
-		cs := c20ModifySet(d)
-		pl, _, _ := plannerOf(d)
-		var first string
-		for k := 0; k < 3; k++ {
-			plan, err := pl.PlanChanges(context.Background(), "p", cs)
-			if err != nil {
-				break
-			}
-			var sb strings.Builder
-			for _, c := range plan.Changes {
-				sb.WriteString(c.Cmd + ";\n")
-			}
-			e.Res.Count(fmt.Sprintf("replan:%s:%d", d, k), true, "replan")
-			if k == 0 {
-				first = sb.String()
-			} else if sb.String() != first {
-				e.Res.Violate("failing-input", "replanning-the-same-changes-differs", fmt.Sprintf("%s: planning the same change set for the %d. time gives other statements: %s", d, k+1, firstDiff(first, sb.String())), "Props.C20 repeated runs", map[string]any{"dialect": d})
-				break
+		sets := c20CycleSets(d)
+		sets["drop columns with their index and foreign key"] = c20ModifySet(d)
+		for sname, cs := range sets {
+			pl, _, _ := plannerOf(d)
+			var first string
+			for k := 0; k < 3; k++ {
+				plan, err := pl.PlanChanges(context.Background(), "p", cs)
+				if err != nil {
+					break
+				}
+				var sb strings.Builder
+				for _, c := range plan.Changes {
+					sb.WriteString(c.Cmd + ";\n")
+				}
+				e.Res.Count(fmt.Sprintf("replan:%s:%s:%d", d, sname, k), true, "replan")
+				if k == 0 {
+					first = sb.String()
+				} else if sb.String() != first {
+					e.Res.Violate("failing-input", "replanning-the-same-changes-differs", fmt.Sprintf("%s (%s): planning the same change set for the %d. time gives other statements: %s", d, sname, k+1, firstDiff(first, sb.String())), "Props.C20 repeated runs", map[string]any{"dialect": d, "set": sname})
+					break
+				}
 			}
 		}
 	}
